@@ -18,14 +18,17 @@ type pureProg struct {
 func c14Pool() []pureProg {
 	m := func(k int) string { return fmt.Sprint(gosym.MarkerBase + k) }
 	return []pureProg{
-		{name: "scalar", main: "main.tsh", files: map[string]string{"main.tsh": "x := " + m(0) + "\nfor i := 0; i < 2; i++ {\n\tif x < " + m(1) + " {\n\t\tprint(x + i)\n\t}\n}\ns := []int{" + m(2) + "}\ns[2] = x\nprint(len(s), \"v\")\n"}},
+		{name: "scalar", main: "main.tsh", files: map[string]string{"main.tsh": "x := " + m(0) + "\ny := 2\nx, y = y, x\nfor i := 0; i < 2; i++ {\n\tif x < " + m(1) + " {\n\t\tprint(x + i)\n\t} else if x == 3 {\n\t\tcontinue\n\t} else {\n\t\tbreak\n\t}\n}\ns := []int{" + m(2) + "}\ns[2] = x\nprint(len(s), \"v\")\n" +
+			"switch x {\ncase 1:\n\tprint(\"one\")\ndefault:\n\tprint(\"other\")\n}\nfor k, v := range s {\n\tprint(k, v)\n}\nfor x > 100 {\n\tx--\n}\nt := \"ab\" + itoa(x)\nt += \"c\"\nprint(t[0], t[1:2], len(t), t == \"q\")\nvar u bool\nu = !u && (x >= y || x != y)\n" +
+			"write(\"f.txt\", t)\nwrite(\"f.txt\", t, true)\nprint(exists(\"f.txt\"), read(\"f.txt\"), u)\nin := input(\"p \")\n@ls(\"-l\")\no, e, c := @ls(in) | @grep(\"x\")\nprint(o, e, c)\n" +
+			"func swap(a int, b int) (int, int) {\n\ta, b = b, a\n\treturn a, b\n}\nx, y = swap(x, y)\np, q := swap(y, x)\nprint(p, q)\nif x == 12345 {\n\tpanic(\"boom\")\n}\n"}},
 		{name: "functions", main: "main.tsh", files: map[string]string{"main.tsh": "func a(p int) int {\n\treturn p * " + m(0) + "\n}\nfunc b(p int) (int, int) {\n\treturn a(p), a(p + 1)\n}\nfunc unused() {\n\tprint(1)\n}\nq, r := b(" + m(1) + ")\nprint(q, r)\n"}},
 		{name: "helpers", main: "main.tsh", files: map[string]string{"main.tsh": "a := []int{" + m(0) + "}\na[2] = 5\nb := []int{}\nn := copy(b, a)\ns := \"hello\"\nprint(n, len(a), s[1:3], s[0])\nfunc unused() int {\n\treturn 1\n}\nfunc a2(p int) int {\n\treturn p\n}\nprint(a2(" + m(1) + "))\n"}},
 		{name: "same-names", main: "main.tsh", files: map[string]string{"main.tsh": "func a(p int) int {\n\treturn p + 1\n}\nfunc unused() int {\n\treturn a(1)\n}\nfunc a2(p int) int {\n\treturn p\n}\nprint(unused(), " + m(0) + ")\n"}},
 		{name: "two-imports", main: "main.tsh", files: map[string]string{
-			"main.tsh":    "import (\n\th \"lib/h.tsh\"\n\tk \"lib/k.tsh\"\n)\nprint(h.Hello(" + m(0) + "), k.Twice(" + m(1) + "))\n",
-			"lib/h.tsh":   "func helper(a int) int {\n\treturn a + 1\n}\nfunc Hello(a int) int {\n\treturn helper(a)\n}\nfunc Other() int {\n\treturn 3\n}\nprint(\"lib h loaded\", helper(1))\n",
-			"lib/k.tsh":   "func Twice(a int) int {\n\treturn a * 2\n}\nfunc Thrice(a int) int {\n\treturn a * 3\n}\n",
+			"main.tsh":  "import (\n\th \"lib/h.tsh\"\n\tk \"lib/k.tsh\"\n)\nprint(h.Hello(" + m(0) + "), k.Twice(" + m(1) + "))\n",
+			"lib/h.tsh": "func helper(a int) int {\n\treturn a + 1\n}\nfunc Hello(a int) int {\n\treturn helper(a)\n}\nfunc Other() int {\n\treturn 3\n}\nprint(\"lib h loaded\", helper(1))\n",
+			"lib/k.tsh": "func Twice(a int) int {\n\treturn a * 2\n}\nfunc Thrice(a int) int {\n\treturn a * 3\n}\n",
 		}},
 		{name: "std-and-local", main: "main.tsh", files: map[string]string{
 			"main.tsh": "import (\n\t\"strings\"\n\tu \"u.tsh\"\n)\nprint(strings.Contains(\"abc\", \"b\"), u.Id(" + m(0) + "))\n",
